@@ -1,7 +1,7 @@
 """C11 — A crash while patching never damages what was committed.
 
 Lean: Model/Crash.lean (create/commit unfolded into file-system steps, torn user-block write
-`new.take k ++ old.drop k`), Model/UBlock.lean (concrete user-block parser), Model/Chain.lean
+`new.take k ++ old.drop k`; `openW`: what a writable open does after a crash), Model/UBlock.lean (concrete user-block parser), Model/Chain.lean
 (`validate`), Proofs/Crash*.lean, Props/C11.lean.
 
 Real code, three observation channels (none needs a hook in /repo):
@@ -11,6 +11,13 @@ Real code, three observation channels (none needs a hook in /repo):
    around the file-system steps inside create/commit (before/after `IH5UserBlock.save`, at
    `hashsum_file`, before/after `IH5Manifest.save` — wrapped from the harness). Every snapshot is
    opened as "committed files only" and as "all files".
+   Crash + recovery (cases with `v >= 2`): the close/reopen step either closes without commit or
+   continues in a *crash image* (copy of the directory taken while the record is open); the record
+   is then opened again in EVERY writable mode (`r+`, `a`) and in every form the constructor takes
+   (record name, explicit file list, file list in any order), so an interrupted patch is recovered,
+   completed, committed and patched further, with all snapshots checked as before. In between, a
+   writable open of a STRICT PREFIX of the file list is attempted (legal call; the next-patch name is
+   taken, so the real code refuses it) and the directory is checked afterwards.
 2. torn writes: for every `save` of a history (creation and commit) the first 1024 bytes before and
    after are recorded and `after[:k] + before[k:]` is built for EVERY k in [0, 1024]; each is fed to
    the real `IH5UserBlock.load` and to the model (`tornall`): classification old/new/error must
@@ -23,6 +30,8 @@ do not show the last committed state; the complete set opens with every containe
 not a state that was written (dump / user block differ from the committed or the about-to-be-committed
 state).
 Correspondence: ok/err + patch order of both openings of every snapshot vs. the model `openFiles`;
+what every writable open does (re-opens the interrupted newest container / creates a patch / refuses
+because the name of the next patch is taken / fails) vs. the model `Crash.openW`;
 run-length classification of all 1025 torn blocks of every save vs. the model `loadUB ∘ torn`.
 """
 import hashlib
@@ -39,7 +48,8 @@ LEAN = dict(
     modules=["MetadorModel.Props.C11"],
     theorems=[T + n for n in [
         "crash_frame", "crash_committed_opens", "torn_create_classified", "torn_classified", "reach_newfile",
-        "crash_trichotomy", "uncommitted_recognisable", "committed_state_verified"]],
+        "crash_trichotomy", "uncommitted_recognisable", "committed_state_verified",
+        "recover_reopens", "reopen_only_uncommitted", "create_only_fresh", "prefix_open_refused"]],
     drivers=["drv_chn"],
 )
 
@@ -74,6 +84,11 @@ class _Run:
         self.nsaves = 0
         self.aborted = None
         self.busy = False  # inside a snapshot analysis (the hooks must stay quiet)
+        self.v = case.get("v", 1)  # op alphabet: 1 = as in the first corpus, 2 = + crash images / recovery modes / prefix opens
+        self.rng2 = random.Random(case["seed"] ^ 0x5EED)  # choices of the v2 ops (the v1 stream stays as it was)
+        self.ops = []  # compact trace of the history (goes into every oracle hit)
+        self.ndirs = 0
+        self.step = 0  # number of the history step that is being executed (oracle hits carry it: shrink target)
 
     # -- directory helpers
     def files_now(self):
@@ -98,7 +113,143 @@ class _Run:
             shutil.rmtree(sd, ignore_errors=True)
 
     def hit(self, kind, **kw):
-        self.oracle.append(dict(kind=kind, cls=self.case["cls"], **kw))
+        self.oracle.append(dict(kind=kind, cls=self.case["cls"], step=self.step, history=" ".join(self.ops), **kw))
+
+    def ih5_now(self):
+        return sorted((f for f in os.listdir(self.d) if f.endswith(".ih5")), key=lambda n: (len(n), n))
+
+    # -- crash / recovery (v2)
+    def crash_or_close(self, r):
+        """End the current process' use of the record without committing: either a close without commit,
+        or the process dies (the directory as it is while the record is open = crash image; the history
+        continues in the image). Returns nothing; self.d is the directory to continue in."""
+        import shutil
+
+        rng = self.rng2
+        if rng.random() < 0.5:
+            # what HDF5 has buffered is arbitrary at a crash; flushed here, so that the interrupted patch
+            # is one that can be recovered (unflushed images are what every snap() already looks at)
+            for f in r._files:
+                if f.mode == "r+":
+                    f.flush()
+            self.ndirs += 1
+            d2 = os.path.join(self.root, "img%d" % self.ndirs)
+            os.makedirs(d2)
+            for f in self.files_now():
+                shutil.copyfile(os.path.join(self.d, f), os.path.join(d2, f))
+            r.close(commit=False)
+            self.d = d2
+            self.ops.append("crash")
+            self.tags.add("crash-image")
+        else:
+            r.close(commit=False)
+            self.ops.append("close")
+
+    def wopen(self, arg, files, mode):
+        """`cls(arg, mode)` with a writable mode on the containers `files` (names in self.d), next to the
+        model's `openW`: does it re-open the interrupted newest container, create a patch, or refuse?"""
+        import gc
+
+        from metador_core.ih5.record import IH5UserBlock
+
+        paths = [os.path.join(self.d, n) for n in files]
+        taken = False
+        try:
+            newest = max(IH5UserBlock.load(p).patch_index for p in paths)
+            taken = os.path.exists(os.path.join(self.d, "rec.p%d.ih5" % (newest + 1)))  # _next_patch_filepath
+        except Exception:  # noqa: BLE001  (a block that does not load: the model answers err whatever `taken` is)
+            pass
+        self.ml.cfg(self.mf)
+        for p in paths:
+            self.ml.file(p, p + "mf.json")
+        self.ml.lines.append("wopen %s" % ("T" if taken else "F"))
+        self.sel.append(len(self.ml.lines) - 1)
+        slot = len(self.out)
+        self.out.append(None)  # (snapshots taken inside the call add their own observations after this one)
+        # openings of snapshots that failed may still hold HDF5 handles (hard links of these very files)
+        gc.collect()
+        _close_leaked()
+        try:
+            q = self.cls(arg, mode)
+        except Exception as e:
+            # mode "x" on a name that is taken: FileExistsError (HDF5: "file exists" when it has the file open itself)
+            refused = isinstance(e, FileExistsError) or (isinstance(e, OSError) and "file exists" in str(e).lower())
+            self.out[slot] = "w refuse" if refused else "err"
+            raise
+        n = len(q.ih5_files)
+        self.out[slot] = ("w reopen" if n == len(files) and q._has_writable else "w create" if n == len(files) + 1 and q._has_writable
+                          else "w other:%d:%d" % (n - len(files), q._has_writable))
+        self.tags.add("wopen:" + self.out[slot][2:])
+        return q
+
+    def prefix_open(self):
+        """A writable open of a strict prefix of the file list. Whatever the code does with it (the pinned
+        code refuses: the name of the next patch is taken), the snapshot oracle looks at the directory."""
+        import gc
+        from pathlib import Path
+
+        rng = self.rng2
+        files = self.ih5_now()
+        if len(files) < 2:
+            return
+        k = rng.randrange(1, len(files))
+        mode = rng.choice(["r+", "a"])
+        paths = [Path(self.d) / n for n in files[:k]]
+        if rng.random() < 0.3:
+            rng.shuffle(paths)
+        self.label = "prefix-open"
+        self.ops.append("prefix-open(%d/%d,%s)" % (k, len(files), mode))
+        q = None
+        try:
+            q = self.wopen(paths, [os.path.basename(str(p)) for p in paths], mode)
+        except Exception as e:  # noqa: BLE001
+            self.tags.add("prefix-open:%s" % ("refused" if self.out and "w refuse" in self.out else "failed:" + type(e).__name__))
+            del e
+            gc.collect()
+            _close_leaked()
+        if q is not None:
+            self.tags.add("prefix-open:accepted")
+            try:
+                cc.rand_writes(q, rng, 2)
+                for f in q._files:
+                    if f.mode == "r+":
+                        f.flush()
+            except Exception:  # noqa: BLE001
+                pass
+        self.snap("prefix-open")
+        if q is not None:
+            try:
+                q.close(commit=False)  # (a commit here would be a commit the bookkeeping below knows nothing about)
+            except Exception:  # noqa: BLE001
+                _close_leaked()
+            self.snap("prefix-open/closed")
+            # a second line of patches now exists in the directory: the bookkeeping of this history ends here
+            raise _Stop("writable open of a strict prefix of the file list was accepted")
+
+    def reopen(self):
+        """Open the record in self.d again, writable: every mode, every form of the constructor argument."""
+        from pathlib import Path
+
+        rng = self.rng2
+        files = self.ih5_now()
+        mode = rng.choice(["r+", "a"])
+        form = rng.choice(["name", "list", "shuffled"])
+        unc = False
+        try:
+            from metador_core.ih5.record import IH5UserBlock
+
+            unc = IH5UserBlock.load(os.path.join(self.d, files[-1])).hdf5_hashsum is None
+        except Exception:  # noqa: BLE001
+            pass
+        self.label = "%s:%s" % ("recover" if unc else "reopen", mode)
+        self.ops.append("%s(%s)" % (self.label, form))
+        self.tags.add("%s:%s" % (self.label, form))
+        if form == "name":
+            return self.wopen(os.path.join(self.d, "rec"), files, mode)
+        paths = [Path(self.d) / n for n in files]
+        if form == "shuffled":
+            rng.shuffle(paths)
+        return self.wopen(paths, [p.name for p in paths], mode)
 
     def open_set(self, sd, names, label, what):
         """open the containers `names` of snapshot dir sd with the real code and the model"""
@@ -299,23 +450,27 @@ class _Run:
         try:
             try:
                 self.label = "create-base"
+                self.ops.append("create-base")
                 r = self.cls(base, "w")
                 self.snap("create-base")
                 steps = self.case.get("steps", 14)
+                # cumulative op thresholds while a container is writable: write, commit, discard; reopen below .9
+                tw, tc, td, tp, tr = PROFILES[self.case.get("profile", "base")]
                 i = 0
                 while i < steps:
                     i += 1
+                    self.step = i
                     writable = r._has_writable
                     nfiles = len(r.ih5_files)
                     x = rng.random()
-                    if writable and x < 0.35:
+                    if writable and x < tw:
                         self.label = "write"
                         cc.rand_writes(r, rng, rng.randrange(1, 4))
                         if rng.random() < 0.3:
                             for f in r._files:
                                 if f.mode == "r+":
                                     f.flush()
-                    elif writable and x < 0.65:
+                    elif writable and x < tc:
                         self.label = "commit"
                         self.pending_dump = cc.dump(r)
                         self.in_commit = True
@@ -329,24 +484,37 @@ class _Run:
                         if self.committed_dump != self.pending_dump:
                             self.hit("commit-changes-view", at="commit")
                         self.pending_dump = None
-                    elif writable and x < 0.75 and nfiles > 1:
+                    elif writable and x < td and nfiles > 1:
                         self.label = "discard"
                         r.discard_patch()
-                    elif not writable and x < 0.7:
+                    elif not writable and x < tp:
                         self.label = "create-patch"
                         r.create_patch()
-                    elif x < 0.9:
+                    elif x < tr and self.v < 2:
                         self.label = "close-reopen"
                         r.close(commit=False)
                         self.snap("closed")
                         r = self.cls(base, "r+")
+                    elif x < tr:
+                        self.label = "closed"
+                        self.crash_or_close(r)
+                        self.snap("closed")
+                        if self.rng2.random() < 0.6:
+                            self.prefix_open()
+                        r = self.reopen()
                     else:
                         self.label = "write"
                         if writable:
                             cc.rand_writes(r, rng, 1)
+                    if self.label in ("write", "commit", "discard", "create-patch", "close-reopen"):
+                        self.ops.append(self.label)
                     self.snap(self.label)
+                self.step = steps + 1
                 r.close(commit=False)
                 self.snap("final-close")
+            except _Stop as e:
+                self.aborted = "stopped at %s: %s" % (self.label, e)
+                self.tags.add("history-stopped")
             except Exception as e:  # noqa: BLE001
                 # the real code refused a legal call (typically the consequence of a violation that the
                 # snapshot oracle has already recorded); stop this history, keep what was observed
@@ -361,6 +529,17 @@ class _Run:
             self.tags.add("committed>=2")
         return dict(out=self.out, mlines=self.ml.lines, sel=self.sel, oracle=self.oracle, tags=sorted(self.tags),
                     diag={"snapshots": self.nsnap, "saves": self.nsaves, "aborted-histories": 1 if self.aborted else 0}, aborted=self.aborted)
+
+
+class _Stop(Exception):
+    pass
+
+
+# cumulative thresholds of the history ops: (write, commit, discard | create-patch when nothing is writable | close/crash+reopen)
+PROFILES = {
+    "base": (0.35, 0.65, 0.75, 0.7, 0.9),
+    "recover": (0.22, 0.50, 0.56, 0.55, 0.93),  # crash / recovery / prefix opens about every third step
+}
 
 
 def _close_leaked():
@@ -400,7 +579,7 @@ while True:
     n += 1
     if n %% 6 == 5:
         r.close(commit=False)
-        r = cls(base, "r+")
+        r = cls(base, rng.choice(["r+", "a"]))
     else:
         r.create_patch()
     if n > 200:
@@ -514,7 +693,7 @@ def impl(case):
 def compare(case, ir, mo):
     for i, (a, si) in enumerate(zip(ir["out"], ir["sel"])):
         m = mo[si]
-        mm = m if (m.startswith("ok") or m.startswith("runs")) else "err"
+        mm = m if m.startswith(("ok", "runs", "w ")) else "err"
         if a != mm:
             return "observation %d: impl=%r model=%r" % (i, a, m)
     return None
@@ -526,7 +705,8 @@ def gen_cases(ctx):
     nh = 36 if ctx.quick else 400
     for i in range(nh):
         cases.append(dict(kind="snap", cls=["ih5", "mf"][i % 2], seed=rng.randrange(1 << 30), steps=rng.randrange(8, 18),
-                          torn="sample" if ctx.quick else ("all" if i % 4 == 0 else "sample")))
+                          torn="sample" if ctx.quick else ("all" if i % 4 == 0 else "sample"),
+                          v=2, profile="recover" if i % 3 == 2 else "base"))
     if not ctx.quick:
         for i in range(240):
             cases.append(dict(kind="kill", cls=["ih5", "mf"][i % 2], seed=rng.randrange(1 << 30), delay=rng.random() ** 2 * 0.6))
@@ -557,7 +737,9 @@ def run(ctx):
 
 def signature(case, detail):
     if isinstance(detail, dict):
-        at = str(detail.get("at", "")).split("/")[-1].split("#")[0]
+        parts = str(detail.get("at", "")).split("#")[0].split("/")
+        # file-system step inside the call for the classic ops; the call itself for prefix opens / recoveries
+        at = parts[0] if parts[0].startswith(("prefix-open", "recover", "reopen")) else parts[-1]
         return "%s:%s:%s" % (ID, detail.get("kind"), at)
     return "%s:%s" % (ID, str(detail)[:40])
 
@@ -566,15 +748,29 @@ def shrink(ctx, case, detail):
     if case.get("kind") != "snap" or not isinstance(detail, dict):
         return case, detail
     want = detail.get("kind")
-    best, bd = case, detail
-    for steps in range(1, case.get("steps", 14)):
-        c = dict(case, steps=steps)
-        r = pool.run_one(MOD, "impl", c, timeout=300)
-        if "ok" in r:
-            ds = [d for d in r["ok"]["oracle"] if d.get("kind") == want]
-            if ds:
-                return c, ds[0]
-    return best, bd
+
+    def first(cands):
+        """the first candidate on which the oracle reports a hit of the wanted kind"""
+        res = pool.run(MOD, "impl", cands, timeout=300, workers=min(4, len(cands)))
+        for c, r in zip(cands, res):
+            if "ok" in r:
+                ds = [d for d in r["ok"]["oracle"] if d.get("kind") == want]
+                if ds:
+                    return c, ds[0]
+        return None
+
+    n = case.get("steps", 14)
+    st = detail.get("step")
+    cands = []
+    if isinstance(st, int) and 0 <= st <= n:
+        # the history is a function of the seed (and of `torn`, which draws from the same stream):
+        # cutting it after the step of the hit keeps the hit
+        cands.append(dict(case, steps=st))
+        got = first(cands)
+        if got:
+            return got
+    got = first([dict(case, steps=k) for k in range(1, n)])
+    return got or (case, detail)
 
 
 def search(ctx):
